@@ -49,6 +49,7 @@ type FuncContract struct {
 	Loops       map[string]*LoopSpec
 	LoopOrder   []string
 	Inline      bool
+	IsIface     bool // contract on an interface method (no body to verify)
 	Logged      bool   // maintain call-log ghost variables calls_<Name>, arg_<Name>_<param>
 	LogName     string
 	Trusted     bool
